@@ -96,6 +96,15 @@ Fixpoint str_forall (p : ascii -> bool) (s : string) : bool :=
 
 Definition nonempty (s : string) : bool := match s with EmptyString => false | _ => true end.
 
+(* bytes given in lower-case hex (used for observed strings that are not printable) *)
+Definition hex_digit (c : ascii) : N :=
+  if is_digit c then N_of_ascii c - 48 else N_of_ascii c - 87.
+Fixpoint unhex (s : string) : string :=
+  match s with
+  | String a (String b r) => String (ascii_of_N (16 * hex_digit a + hex_digit b)) (unhex r)
+  | _ => EmptyString
+  end.
+
 (* value of a string of decimal digits (only used after [str_forall is_digit]) *)
 Fixpoint dec_value_acc (s : string) (acc : Z) : Z :=
   match s with
